@@ -67,6 +67,21 @@ CHECKS.update({
   ref="DESIGN.md section 5 C16"),
 })
 
+CHECKS.update({
+ "C04": dict(technique="Coq proof (Coquelicot is_derive for every coordinate map, list induction for rows, induction over the stage list for the composite) about the transform definitions regenerated from transforms.py; numeric differential + finite differences on the implementation",
+  text="28 theorems about the regenerated periodic / logit / probit / affine definitions: round trips in both directions (outside the documented clip margin), reported forward log-Jacobian = sum of ln|f_i'(x_i)| with the derivative witnessed by is_derive, inverse log-Jacobian = - forward, wrap into [lower,upper) modulo the period with zero log-Jacobian, inverse image strictly inside the bounds, fit = forward; composite of any on/off combination by induction over stages, with the stage order read from the code. The differential evaluates the same IR in mpmath against numpy/torch/jax in both widths over bounds spanning 1e-8..1e8 and checks log-Jacobians by central finite differences.",
+  note="Trusted: Coq kernel; Reals/Coquelicot axioms (sig_forall_dec, sig_not_dec, functional_extensionality_dep, classic); tools/translate.py; erf/erfinv enter the probit theorems as Section hypotheses (mutual inverses, derivative of erfinv) - scipy.special is trusted for them; ln|det| of a coordinatewise map is taken to be the sum of ln|f_i'|; binary rounding is outside the exact-real theorems (known finding F5 lives there); FlowPreconditioningTransform's learned map is not modelled.",
+  ref="DESIGN.md section 5 C04"),
+ "C19": dict(technique="Coq proof by structural induction over programs of a small language with exceptions modelling the two context managers; exhaustive-to-depth and random programs executed on a real Aspire instance and through the model (vm_compute)",
+  text="Theorems: for EVERY program (any nesting depth, exception at any position) log_likelihood and log_prior are afterwards the original objects; leaving auto_checkpoint restores the defaults attribute exactly (including absence); the pool is closed exactly when asked, after the body, and exceptions propagate unchanged. The check runs every nesting to depth 2/3 and random programs to depth 5 on real instances with fake pools, comparing identity of attributes, close logs, outcome and the defaults' saved flags with the model.",
+  note="Trusted: Coq kernel (no axioms); the hand model Model/Contexts.v is tied to utils.PoolHandler / Aspire.auto_checkpoint / the defaults bookkeeping of sample_posterior by running the same programs on both; functools.partial wrappers compared by identity; FakePool stands in for multiprocessing.Pool.",
+  ref="DESIGN.md section 5 C19"),
+ "C20": dict(technique="finite-domain Coq theorem over sampler class x way-of-supplying-a-generator, using constructor/sample signatures regenerated from the class definitions; sentinel generators on the implementation; bit-identical rerun search for samplers and both flow back-ends",
+  text="Theorem (partial, finite domain): for MiniPCN, MiniPCNSMC, EmceeSMC and BlackJAXSMC a generator given to the top-level call is the effective source and through every way it is either used or rejected loudly; the full statement is refuted for Emcee (accepted, never used) - a known finding. The check supplies a draw-counting generator through each way to each class and compares with the model, and reruns every sampler and both flows with equal seeds (different global RNG states) demanding bit-identical outputs.",
+  note="Trusted: Coq kernel + vm_compute; signatures come from the translator (AST of the class definitions), the per-class prologue (what sample() does with the generator) is hand-modelled and tied by the sentinel experiment; bit-reproducibility of torch/jax/numpy for equal seeds is trusted; BlackJAXSMC.sample cannot run here (blackjax absent) - its routing is observed on the constructed sampler; emcee's own generator is outside aspire.",
+  ref="DESIGN.md section 5 C20"),
+})
+
 PENDING_REASON = "check not built yet in this round (planned: DESIGN.md section 5); no claim is made"
 
 
